@@ -588,6 +588,18 @@ func runFanout(e *Env, idx int, c *fanCase) (*fanOut, error) {
 				got[a[0]] = true
 			}
 		}
+		isInit := map[string]bool{}
+		for _, id := range an.VulnIDs {
+			isInit[id] = true
+		}
+		for _, a := range f.roots {
+			// closure, structural half: an attempt that continues no received attempt must be an initial one
+			if len(a) != 1 || !isInit[a[0]] {
+				out.Attempts = prof.Recv
+				out.Mismatch = fmt.Sprintf("closure: attempt %v is neither the attempt of an initially found vulnerability (%v) nor the follow-up of a received attempt (received: %v)", a, an.VulnIDs, prof.Recv)
+				return out, nil
+			}
+		}
 		for _, id := range an.VulnIDs {
 			if !got[id] {
 				out.Attempts = prof.Recv
